@@ -1,8 +1,11 @@
 package main
 
 import (
+	"bytes"
 	"encoding/json"
 	"fmt"
+	"os"
+	"os/exec"
 	"path/filepath"
 	"strings"
 	"time"
@@ -57,6 +60,7 @@ type C03Case struct {
 	Inc     map[string][]*TNode `json:"inc,omitempty"`
 	Steps   []C03Step           `json:"steps"`
 	FailAt  int                 `json:"fail_at_step"`
+	Prefix  *C02Prefix          `json:"process_history,omitempty"` // earlier cases of the shard process the divergence was seen in
 }
 
 func genC03(r *Rng) *C03Case {
@@ -194,6 +198,34 @@ func c03Expected(cs *C03Case, t, b int, ep int) Res {
 	return res
 }
 
+// c03Exp (mode c03exp): a pristine child process computes expected[(t,b)] of the
+// case given on stdin (nothing at all has run in it before).
+func c03Exp() {
+	simrt.SimPools = true
+	var in struct {
+		Case     C03Case
+		T, B, EP int
+	}
+	if err := json.NewDecoder(os.Stdin).Decode(&in); err != nil {
+		fatal("c03exp: %v", err)
+	}
+	fmt.Print(c03Expected(&in.Case, in.T, in.B, in.EP).Key())
+}
+
+func c03Child(cs *C03Case, t, b, ep int) (string, bool) {
+	cmd := exec.Command(os.Args[0], "c03exp", "-scratch", scratchRoot)
+	cmd.Env = append(os.Environ(), "TZ=UTC")
+	in, _ := json.Marshal(map[string]any{"Case": cs, "T": t, "B": b, "EP": ep})
+	cmd.Stdin = bytes.NewReader(in)
+	var so bytes.Buffer
+	cmd.Stdout = &so
+	cmd.Stderr = os.Stderr
+	if err := cmd.Run(); err != nil {
+		return "", false
+	}
+	return so.String(), true
+}
+
 type c03Fail struct {
 	clause, detail, sig string
 	step                int
@@ -253,6 +285,8 @@ func c03Find(c *Ctx, cs *C03Case, out *CaseOut, wantSig string) []c03Fail {
 		return wantSig != ""
 	}
 	hist := ""
+	lastOK, lastEP := -1, 0
+	var lastRes Res
 	type kept struct {
 		res  Res
 		step int
@@ -289,6 +323,9 @@ func c03Find(c *Ctx, cs *C03Case, out *CaseOut, wantSig string) []c03Fail {
 		default:
 			res = Run(ep, eng, tpls[st.T], srcs[st.T], envs[st.B], nil)
 			res.Stage = ""
+			if res.Panic == "" {
+				lastOK, lastEP, lastRes = si, ep, res
+			}
 			if res.Key() != want.Key() {
 				if add("render-independent", fmt.Sprintf("step %d: %s of template %d %q with env %d after %d earlier step(s) gives %s; alone on a fresh engine with equal bindings it gives %s", si, epNames[ep], st.T, clip(srcs[st.T]), st.B, si, clip(res.Key()), clip(want.Key())), si) {
 					return fails
@@ -343,6 +380,25 @@ func c03Find(c *Ctx, cs *C03Case, out *CaseOut, wantSig string) []c03Fail {
 			}
 		}
 	}
+	// Process-level state: the last fault-free step's result is also compared with
+	// expected[(t,b)] computed in a PRISTINE child process. (The in-process reference is
+	// computed on a fresh engine but in a process that has already rendered; state kept
+	// at package level by earlier renders would pollute both sides equally.)
+	if (c != nil || wantSig == "render-independent|process") && lastOK >= 0 {
+		st := cs.Steps[lastOK]
+		if key, ok := c03Child(cs, st.T, st.B, lastEP); ok {
+			out.Evals++
+			if c != nil {
+				c.count("fault:fresh-process-reference", 1)
+			}
+			if key != lastRes.Key() && !seen["render-independent|process"] && (wantSig == "" || wantSig == "render-independent|process") {
+				seen["render-independent|process"] = true
+				fails = append(fails, c03Fail{"render-independent", fmt.Sprintf("step %d: %s of template %d %q with env %d gives %s after the earlier steps of this history; a pristine process gives %s for the same template and bindings (state surviving at process level)", lastOK, epNames[lastEP], st.T, clip(srcs[st.T]), st.B, clip(lastRes.Key()), clip(key)), "render-independent|process", lastOK})
+			}
+		} else if c != nil {
+			c.count("fresh_process_child_failed", 1)
+		}
+	}
 	return fails
 }
 
@@ -391,6 +447,15 @@ func (ck c03) RunCase(c *Ctx, idx int) *CaseOut {
 func c03Violation(c *Ctx, cs *C03Case, f c03Fail, idx int) *Violation {
 	orig := *cs
 	orig.FailAt = f.step
+	if f.sig == "render-independent|process" {
+		// needs the earlier activity of this process: not minimised; the replay re-runs
+		// the shard's earlier cases first
+		if c.Shards > 0 {
+			orig.Prefix = &C02Prefix{Index: idx, Shards: c.Shards, Tier: c.Tier}
+		}
+		ob, _ := json.Marshal(orig)
+		return &Violation{Property: "C03", Clause: f.clause, Detail: f.detail, Signature: f.sig, Seed: c.Seed, Index: idx, Case: ob}
+	}
 	ob, _ := json.Marshal(orig)
 	if !c.mayMinimise(f.sig) {
 		return &Violation{Property: c.Prop, Clause: f.clause, Detail: f.detail, Signature: f.sig, Seed: c.Seed, Index: idx, Case: ob}
@@ -456,8 +521,19 @@ func (ck c03) Replay(c *Ctx, v *Violation) *Violation {
 	if err := json.Unmarshal(v.Case, &cs); err != nil {
 		fatal("replay: %v", err)
 	}
+	if cs.Prefix != nil {
+		c.Tier = cs.Prefix.Tier
+		for i := cs.Prefix.Index % cs.Prefix.Shards; i < cs.Prefix.Index; i += cs.Prefix.Shards {
+			simrt.ResetPools()
+			ck.RunCase(c, i) // the earlier activity of the process the divergence was seen in
+		}
+	}
 	out := &CaseOut{}
-	for _, f := range c03Find(nil, &cs, out, "") {
+	want := ""
+	if v.Signature == "render-independent|process" {
+		want = v.Signature // the pristine-child reference is only consulted on request
+	}
+	for _, f := range c03Find(nil, &cs, out, want) {
 		if f.clause == v.Clause {
 			fmt.Printf("replay: history of %d step(s) -> %s: %s\n", len(cs.Steps), f.clause, f.detail)
 			return &Violation{Property: "C03", Clause: f.clause, Detail: f.detail, Signature: f.sig}
